@@ -101,7 +101,10 @@ def run(program, res, tier):
         roots = d2.roots_at(rt, rt.stmt.value)
         for want, why in ((f"{p}.shape", "frames of different shape could share a key"),
                           (f"{p}.columns", "frames that differ only in column names would share a key"),
-                          ("call:hash_pandas_object", "the contents of the frame as it is now would not be hashed")):
+                          ("call:hash_pandas_object", "the contents of the frame as it is now would not be hashed"),
+                          (f"{p}.dtypes", "hash_pandas_object hashes the cells' bit patterns: int32 [-1,-2] and int64 [4294967295,4294967294], float64 1.0 and int64 "
+                                          "4607182418800017408, datetime64[s] and datetime64[us] columns share their row hashes — a lookup hits the result stored for the other table"),
+                          ("call:type", "object cells are hashed through str(): [10, 9, 100] and ['10', '9', '100'] share a key (the numbers sort 9,10,100, the strings 10,100,9)")):
             if depsmod.has_root(roots, want):
                 res.ok("C25-S1", f"hash_data_frame return #{i + 1} depends on {want}")
             else:
